@@ -13,31 +13,34 @@ Require Import GAApi.Gen.GenTypes GAApi.Gen.GenWrite GAApi.Checks.C12Checks.
 Import ListNotations.
 Open Scope string_scope.
 
+(** [ADTS := mk_adts decls] are the struct/enum declarations of the crate with aliases expanded;
+    [ENV := variances ADTS] is the variance table computed from them (Checks/C12Checks.v). *)
+
 (** Every lifetime parameter that carries the brand -- of the pointer and context types and of every
     type that embeds them -- is invariant, in the least fixed point of rustc's variance rules. *)
 Theorem C12_invariant :
-  forall T i, In (T, i) (branded (mk_adts decls)) ->
-              variance_lt (mk_adts decls) (variances (mk_adts decls)) T i = Some Inv.
+  forall T i, In (T, i) (branded ADTS) ->
+              variance_lt ADTS ENV T i = Some Inv.
 Proof. exact invariant_lifted. Qed.
 Print Assumptions C12_invariant.
 
 Theorem C12_invariant_base :
   forall T i, In (T, i) brand_base ->
-              variance_lt (mk_adts decls) (variances (mk_adts decls)) T i = Some Inv.
+              variance_lt ADTS ENV T i = Some Inv.
 Proof. exact base_lifted. Qed.
 Print Assumptions C12_invariant_base.
 
 (** The table the two theorems above talk about is a fixed point of the variance equations (it is
     reached by Kleene iteration from the all-bivariant table, hence the least one). *)
 Theorem C12_variance_fixpoint :
-  venv_eqb (variances (mk_adts decls)) (vstep (mk_adts decls) (variances (mk_adts decls))) = true.
+  venv_eqb ENV (vstep ADTS ENV) = true.
 Proof. exact fixpoint_check. Qed.
 Print Assumptions C12_variance_fixpoint.
 
 (** Aliases of branded types ([GcLock], [GcSlice], [GcThinStr], ...) are invariant in their brand. *)
 Theorem C12_alias_invariant :
-  forall q, In q (branded_aliases decls (branded (mk_adts decls))) ->
-            alias_invariant_ok decls (variances (mk_adts decls)) q = true.
+  forall q, In q (branded_aliases decls (branded ADTS)) ->
+            alias_invariant_ok decls ENV q = true.
 Proof. exact alias_lifted. Qed.
 Print Assumptions C12_alias_invariant.
 
@@ -89,8 +92,8 @@ Print Assumptions C12_no_unknown_syntax.
 
 (** ** Non-vacuity *)
 Example C12_invariant_nonvacuous :
-  In ("Gc", 0%nat) (branded (mk_adts decls)) /\ In ("Mutation", 0%nat) (branded (mk_adts decls))
-  /\ In ("DynamicRootSet", 0%nat) (branded (mk_adts decls)).
+  In ("Gc", 0%nat) (branded ADTS) /\ In ("Mutation", 0%nat) (branded ADTS)
+  /\ In ("DynamicRootSet", 0%nat) (branded ADTS).
 Proof. vm_compute. tauto. Qed.
 
 Example C12_static_only_nonvacuous :
